@@ -23,7 +23,7 @@ MANIFEST = {
 }
 
 RULE = ("every .xgo/.gox/.spx/.gmx/.gsh file of the repo and a seeded sample of .go files (all in thorough) that parse without error, half as many (quick) / six times as many (thorough) layout-mutated "
-        "XGo files (blanks / tabs / comments inserted between tokens), n random XGo scripts from a construct-biased generator, and for each node kind 4 (40) "
+        "XGo files (blanks / tabs / comments inserted between tokens), the embedded regression corpus first (as is and in 3 deterministic dense layouts), one dense layout per XGo corpus file, n random XGo scripts from a construct-biased generator (1/4 in another parser mode), n token-level mutants of valid sources, and for each node kind 4 (40) "
         "reflection-synthesised trees, half of them with random nils (differential only); non-trivial = distinct tree with >= 5 nodes; every node of every "
         "parsed tree is checked by the oracles")
 
